@@ -21,7 +21,9 @@ PROP = "C13"
 DRIVER = "C13"
 RULE = ("correspondence: one driver line per call of split_with_remainder / distribute_from_split_pool / create_tx "
         "(BTC network object) / total_in / total_out / fee / is_coinbase / validate_unspents / the four conversions / "
-        "Decimal mul, div, quantize, int; distinct = distinct line; non-trivial = model returns a value (not an exception)")
+        "Decimal mul, div, quantize, int / distribute_st (result and object state afterwards, also after a raise) / history (a sequence "
+        "of observer and mutator calls on one object: every result and the final state); distinct = distinct line; "
+        "non-trivial = model returns a value (not an exception)")
 PARTIAL = ["Decimal <-> str (decimal.Decimal(str), str(Decimal)) is Python's: only direct checks "
            "(btc_to_satoshi(str(satoshi_to_btc(s))) == s, str form against an independent formatter)",
            "fee='standard' needs len(tx.stream()): the byte count is an argument of the model (wire format is C07)",
@@ -494,7 +496,7 @@ def impl_quantize(a, e):
     return c_dec(mk_dec(a).quantize(decimal.Decimal((0, (1,), e))))
 
 
-def model_cases(rng, tier):
+def _base_model_cases(rng, tier):
     for t, k in split_pairs(rng, tier):
         yield Case("split %s %s" % (canon(t), canon(k)), (lambda t=t, k=k: call13(lambda: list(tx_utils.split_with_remainder(t, k)))))
     for n in itertools.chain(range(0, 3100, 1 if tier == "thorough" else 7), [999, 1000, 1001, 1999, 2000, 2001, 99999, 100000, 100001, 10 ** 6 + 1],
@@ -514,6 +516,8 @@ def model_cases(rng, tier):
             except Exception:
                 continue
         yield Case("distribute %s %s %s" % (a_tx(t), a_fee(f), canon(bc)), (lambda t=t, f=f: call13(impl_distribute, t, f)))
+        yield Case("distribute_st %s %s %s" % (a_tx(t), a_fee(f), canon(bc)), (lambda t=t, f=f: impl_distribute_st(t, f)),
+                   meta={"tx": jtx(t), "fee": f})
         yield Case("total_out " + a_tx(t), (lambda t=t: call13(lambda: mk_tx(t).total_out())))
         yield Case("total_in " + a_tx(t), (lambda t=t: call13(lambda: mk_tx(t).total_in())))
         yield Case("fee " + a_tx(t), (lambda t=t: call13(lambda: mk_tx(t).fee())))
@@ -582,9 +586,13 @@ def chk_create(spec, fee):
     k = len(pool)
     remaining = tot - fixed - fee
     must_raise = k > 0 and remaining < k
+    snap = lambda: ([x.as_text() if isinstance(x, Spendable) else repr(x) for x in sps], repr(pays))
+    before = snap()
     try:
         tx = network.tx_utils.create_tx(sps, pays, fee=fee, lock_time=spec["lock_time"], version=spec["version"])
     except ValueError as e:
+        if snap() != before:
+            return {"kind": "refused-create_tx-changed-its-arguments"}
         if must_raise:
             return None
         return {"kind": "create-raises-with-sufficient-funds", "remaining": remaining, "pool": k, "detail": str(e)}
@@ -593,6 +601,8 @@ def chk_create(spec, fee):
     if must_raise:
         return {"kind": "create-returns-with-insufficient-funds", "remaining": remaining, "pool": k,
                 "outs": [o.coin_value for o in tx.txs_out]}
+    if snap() != before:
+        return {"kind": "create_tx-changed-its-arguments"}
     outs = [o.coin_value for o in tx.txs_out]
     A = addresses()
     if len(outs) != len(spec["payables"]) or any(o.script != A[p[0]][1] for o, p in zip(tx.txs_out, spec["payables"])):
@@ -649,9 +659,12 @@ def chk_validate(sc):
     spec, dbl = build_validate(sc)
     db = dict(dbl)
     tx = mk_tx(spec)
+    before = c_tx(tx)
     try:
         f = tx.validate_unspents(db)
     except Exception as e:
+        if c_tx(tx) != before:
+            return {"kind": "refused-validate_unspents-changed-the-transaction"}
         if sc["kind"] == "none":
             return {"kind": "valid-rejected", "detail": "%s: %s" % (type(e).__name__, e)}
         return None
@@ -729,7 +742,7 @@ def prop_satoshis(rng, tier):
         yield -rng.randint(1, MAX)
 
 
-def run_check(name, inp):
+def _base_run_check(name, inp):
     if name == "split":
         return chk_split(int(inp["total"]), int(inp["k"]))
     if name == "create_tx":
@@ -743,7 +756,7 @@ def run_check(name, inp):
     return {"kind": "unknown-check"}
 
 
-def prop_cases(rng, tier):
+def _base_prop_cases(rng, tier):
     for t, k in split_pairs(rng, tier):
         if k > 0:
             yield PropCase("split", {"total": t, "k": k}, (lambda t=t, k=k: chk_split(t, k)))
@@ -780,7 +793,7 @@ def _z(tok):
     return -int(tok[2:], 16) if tok.startswith("i-") else int(tok[1:], 16)
 
 
-def search(rng, tier, disagreements, known_ids):
+def _base_search(rng, tier, disagreements, known_ids):
     """after a proof/correspondence break: look for an input on which the property itself fails"""
     cands = []
     for d in disagreements[:60]:
@@ -813,7 +826,7 @@ def search(rng, tier, disagreements, known_ids):
                 if e >= -places and 0 <= c * 10 ** (e + places) <= MAX:
                     s = c * 10 ** (e + places)
                     cands.append(PropCase("decimal", {"s": s}, (lambda s=s: chk_decimal(s))))
-    cands += list(prop_cases(rng, tier))
+    cands += list(prop_cases(rng, tier))  # the extended generator (defined below)
     for pc in cands:
         try:
             r = pc.thunk()
@@ -822,3 +835,532 @@ def search(rng, tier, disagreements, known_ids):
         if r is not None and classify(pc, r) not in known_ids:
             return {"check": pc.name, "input": pc.inp, "failure": r}
     return None
+
+
+# ====================================================================================================
+# Round c: (A) "a refused call changes nothing" and (B) value histories of one Tx object.
+# The transaction is a mutable object: observers (fee, total_in, total_out, is_coinbase, validate_unspents) and
+# mutators by every route (set_unspents, unspents_from_db, direct assignment of unspents / txs_out / txs_in,
+# in-place edits, append, clear, distribute_from_split_pool) are executed as a history on ONE object; the model
+# (Model/TxBuild.v step/run) predicts every result and the final state; the direct check compares the object with a
+# transaction freshly built from its current fields after every step, and the state before/after every refused call.
+# ====================================================================================================
+def impl_distribute_st(t, fee):
+    tx = mk_tx(t)
+    r = call13(tx_utils.distribute_from_split_pool, tx, fee)
+    return "(%s %s)" % (r, canon(c_tx(tx)))
+
+
+class FreshDb:
+    """a transaction database that deserializes on every get (as a disk- or network-backed tx_db does), so that the
+    objects it hands out are never shared with the transaction under test"""
+
+    def __init__(self, pairs):
+        self.blobs = {k: t.as_bin() for k, t in pairs}
+
+    def get(self, h, default=None):
+        b = self.blobs.get(h)
+        return default if b is None else Tx.from_bin(b)
+
+
+OBSERVERS = [["OTI"], ["OTO"], ["OFEE"], ["OCB"], ["OVAL", 0], ["OVAL", 1]]
+
+
+def j_unspent(u):
+    return None if u is None else [u[0], u[1].hex()]
+
+
+def apply_op(tx, dbs, op):
+    k = op[0]
+    if k == "OTI":
+        return tx.total_in()
+    if k == "OTO":
+        return tx.total_out()
+    if k == "OFEE":
+        return tx.fee()
+    if k == "OCB":
+        return int(bool(tx.is_coinbase()))
+    if k == "OVAL":
+        return tx.validate_unspents(dbs[op[1]])
+    mk_u = lambda u: None if u is None else TxOut(u[0], bytes.fromhex(u[1]))
+    if k == "SU":
+        r = tx.set_unspents([mk_u(u) for u in op[1]])
+    elif k == "FD":
+        r = tx.unspents_from_db(dbs[op[1]], ignore_missing=op[2])
+    elif k == "AU":
+        tx.unspents = [mk_u(u) for u in op[1]]
+        r = None
+    elif k == "EU":
+        tx.unspents[op[1]].coin_value = op[2]
+        r = None
+    elif k == "PU":
+        r = tx.unspents.append(mk_u(op[1]))
+    elif k == "CU":
+        r = tx.unspents.clear()
+    elif k == "AO":
+        tx.txs_out = [TxOut(v, bytes.fromhex(sc)) for v, sc in op[1]]
+        r = None
+    elif k == "EO":
+        tx.txs_out[op[1]].coin_value = op[2]
+        r = None
+    elif k == "PO":
+        r = tx.txs_out.append(TxOut(op[1][0], bytes.fromhex(op[1][1])))
+    elif k == "AI":
+        tx.txs_in = [TxIn(bytes.fromhex(h), i, bytes.fromhex(sc), q) for h, i, sc, q in op[1]]
+        r = None
+    elif k == "DI":
+        return tx_utils.distribute_from_split_pool(tx, op[1])
+    else:
+        raise RuntimeError("unknown op %r" % (op,))
+    if r is not None:
+        raise TypeError("mutator returned %r" % (r,))
+    return 0
+
+
+def a_op(op):
+    k = op[0]
+    sub_u = lambda us: ";".join("N" if u is None else "%s/%s" % (canon(u[0]), canon(bytes.fromhex(u[1]))) for u in us) or "-"
+    sub_o = lambda os_: ";".join("%s/%s" % (canon(v), canon(bytes.fromhex(sc))) for v, sc in os_) or "-"
+    if k in ("OTI", "OTO", "OFEE", "OCB", "CU"):
+        return k
+    if k == "OVAL":
+        return "OVAL:%s" % canon(op[1])
+    if k in ("SU", "AU"):
+        return "%s:%s" % (k, sub_u(op[1]))
+    if k == "FD":
+        return "FD:%s:%s" % (canon(op[1]), canon(bool(op[2])))
+    if k in ("EU", "EO"):
+        return "%s:%s:%s" % (k, canon(op[1]), canon(op[2]))
+    if k == "PU":
+        return "PU:%s" % sub_u([op[1]])
+    if k == "AO":
+        return "AO:%s" % sub_o(op[1])
+    if k == "PO":
+        return "PO:%s" % sub_o([op[1]])
+    if k == "AI":
+        return "AI:%s" % (";".join("%s/%s/%s/%s" % (canon(bytes.fromhex(h)), canon(i), canon(bytes.fromhex(sc)), canon(q))
+                                   for h, i, sc, q in op[1]) or "-")
+    if k == "DI":
+        return "DI:%s" % a_fee(op[1])
+    raise RuntimeError("unknown op %r" % (op,))
+
+
+def history_setup(hs):
+    """hs = {"sc": validate scenario, "ops": [...]} -> (spec of the tx, [db0 pairs, db1 pairs])
+    db 0 is the scenario's (possibly defective) database, db 1 the honest one holding every source"""
+    sc = hs["sc"]
+    spec, db0 = build_validate(sc)
+    srcs = [src_tx(x) for x in sc["srcs"]]
+    db1 = [(t.hash(), t) for t in srcs]
+    return spec, [db0, db1]
+
+
+def history_line(hs):
+    spec, dbl = history_setup(hs)
+    ents = []
+    for k, db in enumerate(dbl):
+        for key, t in db:
+            o = ";".join("%s/%s" % (canon(x.coin_value), canon(x.script)) for x in t.txs_out) or "-"
+            ents.append("%s:%s:%s:%s" % (canon(k), canon(key), canon(t.hash()), o))
+    return "history %s %s %s" % (a_tx(spec), alist(ents), alist(a_op(o) for o in hs["ops"]))
+
+
+def impl_history(hs):
+    spec, dbl = history_setup(hs)
+    dbs = [FreshDb(d) for d in dbl]
+    tx = mk_tx(spec)
+    res = [call13(apply_op, tx, dbs, op) for op in hs["ops"]]
+    return "([%s] %s)" % (" ".join(res), canon(c_tx(tx)))
+
+
+def spec_of(tx):
+    v, ins, outs, lt, us = c_tx(tx)
+    return {"version": v, "ins": ins, "outs": outs, "lock_time": lt, "unspents": us}
+
+
+def chk_history(hs):
+    """independent reference = a transaction freshly built from the object's current fields"""
+    spec, dbl = history_setup(hs)
+    dbs = [FreshDb(d) for d in dbl]
+    tx = mk_tx(spec)
+    for n, op in enumerate(hs["ops"]):
+        before = c_tx(tx)
+        r = call13(apply_op, tx, dbs, op)
+        after = c_tx(tx)
+        if r.startswith("!") and after != before:
+            return {"kind": "refused-call-changed-the-object", "step": n, "op": op, "result": r,
+                    "outs_before": [o[0] for o in before[2]], "outs_after": [o[0] for o in after[2]],
+                    "unspents_before": [u and u[0] for u in before[4]], "unspents_after": [u and u[0] for u in after[4]]}
+        if op[0].startswith("O") and after != before:
+            return {"kind": "observer-changed-the-object", "step": n, "op": op}
+        fresh = mk_tx(spec_of(tx))
+        for ob in OBSERVERS:
+            a = call13(apply_op, tx, dbs, ob)
+            b = call13(apply_op, fresh, dbs, ob)
+            if a != b:
+                return {"kind": "stale-observation", "after_step": n, "after_op": op, "observer": ob, "object_says": a,
+                        "freshly_built_equal_transaction_says": b, "unspents": [u and u[0] for u in after[4]],
+                        "outs": [o[0] for o in after[2]]}
+        if c_tx(tx) != after:
+            return {"kind": "observer-changed-the-object", "step": n, "op": "observers"}
+    return None
+
+
+def _r_unspents(rng, n, base):
+    """a list of n recorded unspents: the authentic ones with some amounts misreported, or random ones"""
+    us = []
+    for j in range(n):
+        if base and j < len(base) and base[j] is not None and rng.random() < 0.7:
+            v, sc = base[j]
+            us.append([v + rng.choice([0, 0, 1, -1, 30000, rng.randint(1, 10 ** 6)]), sc.hex()])
+        elif rng.random() < 0.1:
+            us.append(None)
+        else:
+            us.append([r_value(rng), r_script(rng).hex()])
+    return us
+
+
+def _r_outs(rng, n):
+    return [[0 if rng.random() < 0.45 else rng.randint(1, 10 ** rng.randint(1, 8)), r_script(rng).hex()] for _ in range(n)]
+
+
+def gen_mutator(rng, kind, st):
+    """st: tracked view of the object {"n_in", "ins", "base" (authentic unspents), "us", "outs"} (us/outs None = unknown)"""
+    n = st["n_in"]
+    if kind == "SU":
+        m = n if rng.random() < 0.8 else max(0, n + rng.choice([-1, 1]))
+        us = _r_unspents(rng, m, st["base"])
+        if m == n:
+            st["us"] = us
+        return ["SU", us]
+    if kind == "FD":
+        st["us"] = None
+        return ["FD", rng.choice([0, 1, 1]), rng.random() < 0.3]
+    if kind == "AU":
+        us = _r_unspents(rng, rng.choice([n, n, n, 0, n + 1, max(0, n - 1)]), st["base"])
+        st["us"] = us
+        return ["AU", us]
+    if kind == "EU":
+        i = rng.randint(0, n + 1)
+        v = rng.choice([0, 1, r_value(rng)])
+        if st["us"] is not None and i < len(st["us"]) and st["us"][i] is not None:
+            st["us"][i] = [v, st["us"][i][1]]
+        return ["EU", i, v]
+    if kind == "PU":
+        u = None if rng.random() < 0.2 else [r_value(rng), r_script(rng).hex()]
+        if st["us"] is not None:
+            st["us"] = st["us"] + [u]
+        return ["PU", u]
+    if kind == "CU":
+        st["us"] = []
+        return ["CU"]
+    if kind == "AO":
+        outs = _r_outs(rng, rng.choice([0, 1, 2, 3, 4]))
+        st["outs"] = outs
+        return ["AO", outs]
+    if kind == "EO":
+        i = rng.randint(0, 4)
+        v = rng.choice([0, 0, 1, rng.randint(1, 10 ** 6)])
+        if st["outs"] is not None and i < len(st["outs"]):
+            st["outs"][i] = [v, st["outs"][i][1]]
+        return ["EO", i, v]
+    if kind == "PO":
+        o = [rng.choice([0, 0, rng.randint(1, 1000)]), r_script(rng).hex()]
+        if st["outs"] is not None:
+            st["outs"] = st["outs"] + [o]
+        return ["PO", o]
+    if kind == "AI":
+        q = rng.random()
+        if q < 0.3:
+            ins = [[ZERO32.hex(), FFFF, "0102", 0]]
+        elif q < 0.4:
+            ins = []
+        else:
+            ins = [list(x) for x in st["ins"]]
+            rng.shuffle(ins)
+            ins = ins[:rng.randint(1, len(ins))] if ins else ins
+        st["n_in"] = len(ins)
+        st["ins"] = ins
+        st["base"] = None
+        return ["AI", ins]
+    if kind == "DI":
+        fee = rng.choice([0, 1, 10, 10000])
+        if st["us"] is not None and st["outs"] is not None and all(u is not None for u in st["us"]):
+            tot = sum(u[0] for u in st["us"])
+            fixed = sum(o[0] for o in st["outs"])
+            k = sum(1 for o in st["outs"] if o[0] == 0)
+            fee = tot - fixed - rng.choice([-1, 0, 1, k - 1, k, k + 1, 2 * k + 1, max(1, k - 2), rng.randint(0, 3 * k + 2)])
+        st["outs"] = None
+        return ["DI", fee]
+    raise RuntimeError(kind)
+
+
+MUTATORS = ["SU", "FD", "AU", "EU", "PU", "CU", "AO", "EO", "PO", "AI", "DI"]
+
+
+def _track(sc):
+    spec, _ = build_validate(sc)
+    return {"n_in": len(spec["ins"]), "ins": [[h.hex(), i, s.hex(), q] for h, i, s, q in spec["ins"]],
+            "base": list(spec["unspents"]), "us": [j_unspent(u) for u in spec["unspents"]],
+            "outs": [[v, s.hex()] for v, s in spec["outs"]]}
+
+
+def history_scenarios(rng, tier):
+    # every observer x every mutator: observe, mutate, observe again (with and without misreported amounts first)
+    reps = 1 if tier == "quick" else 12
+    for _ in range(reps):
+        for kind in ("none", "value+1"):
+            for ob in OBSERVERS:
+                for m in MUTATORS:
+                    sc = gen_validate(rng, kind)
+                    st = _track(sc)
+                    ops = []
+                    if rng.random() < 0.5:
+                        ops.append(gen_mutator(rng, "SU", st))
+                    if m == "DI":
+                        ops.append(gen_mutator(rng, "AO", st))
+                    ops += [ob, gen_mutator(rng, m, st), ob]
+                    if m in ("AO", "EO", "PO") and rng.random() < 0.7:
+                        ops += [gen_mutator(rng, "DI", st), ob]
+                    yield {"sc": sc, "ops": ops}
+    # the documented workflow: reported amounts, ask the fee / validate (refused), load authentic amounts, ask again
+    for _ in range(40 if tier == "quick" else 1500):
+        sc = gen_validate(rng, rng.choice(["none", "value+1", "value-1", "script-changed", "missing-key"]))
+        st = _track(sc)
+        ops = [gen_mutator(rng, "SU", st), rng.choice(OBSERVERS), ["OVAL", rng.choice([0, 1])], ["FD", 1, False],
+               ["OFEE"], ["OTI"], ["OVAL", 1], gen_mutator(rng, "SU", st), ["OFEE"]]
+        yield {"sc": sc, "ops": ops}
+    # refused distribution, then a second try on the same object
+    for _ in range(60 if tier == "quick" else 2000):
+        sc = gen_validate(rng, "none")
+        st = _track(sc)
+        ops = [gen_mutator(rng, "AO", st), gen_mutator(rng, "DI", st), ["OTO"], ["DI", rng.choice([0, 1, 2])], ["OFEE"], ["OTO"]]
+        yield {"sc": sc, "ops": ops}
+    # random histories
+    for _ in range(250 if tier == "quick" else 12000):
+        sc = gen_validate(rng, rng.choice(KINDS[:12] + ["none", "none", "unspent-none", "tx-coinbase", "coinbase-input-extra-none"]))
+        st = _track(sc)
+        ops = []
+        for _ in range(rng.randint(3, 12)):
+            if rng.random() < 0.45:
+                ops.append(rng.choice(OBSERVERS))
+            else:
+                ops.append(gen_mutator(rng, rng.choice(MUTATORS), st))
+        ops.append(rng.choice(OBSERVERS))
+        yield {"sc": sc, "ops": ops}
+
+
+# ---- refused distribution: the ValueError (and the AttributeError) must leave the transaction as it was ------------
+def refused_specs(rng, tier):
+    """(tx spec, refused fee, affordable fee): k >= 1 pool outputs, remaining in {k-1 .. 1, 0, -1, far below}"""
+    n = 150 if tier == "quick" else 5000
+    for _ in range(n):
+        k = rng.choice([1, 2, 2, 3, 3, 4, 5, 8])
+        n_fixed = rng.choice([0, 0, 1, 2])
+        outs = [(0, r_script(rng)) for _ in range(k)] + [(rng.randint(1, 10 ** rng.randint(1, 7)), r_script(rng)) for _ in range(n_fixed)]
+        rng.shuffle(outs)
+        n_in = rng.randint(1, 3)
+        fixed = sum(v for v, _ in outs)
+        unspents = [(r_value(rng) + fixed, r_script(rng)) for _ in range(n_in)]
+        t = {"version": 1, "ins": [(r_hash(rng), j, b"", FFFF) for j in range(n_in)], "outs": outs, "lock_time": 0, "unspents": unspents}
+        tot = sum(u[0] for u in unspents)
+        rems = list(range(1, k)) + [0, -1, -rng.randint(2, 10 ** 6)]
+        for rem in (rems if tier == "thorough" or k <= 3 else rng.sample(rems, 3)):
+            hi = tot - fixed - rem
+            lo = rng.choice([0, 1, hi - rng.randint(k, 3 * k + 5) + rem if hi > 3 * k + 5 else 0])
+            if tot - fixed - lo >= k:
+                yield t, hi, max(lo, 0) if tot - fixed - max(lo, 0) >= k else 0
+    # AttributeError path: a None among the unspents
+    for _ in range(20 if tier == "quick" else 300):
+        t = gen_tx_spec(rng, False)
+        if t["unspents"] and any(v == 0 for v, _ in t["outs"]):
+            t["unspents"][rng.randrange(len(t["unspents"]))] = None
+            yield t, rng.randint(0, 100), None
+
+
+def chk_refused(jt, hi, lo):
+    t = untx(jt)
+    tx = mk_tx(t)
+    before = c_tx(tx)
+    try:
+        tx_utils.distribute_from_split_pool(tx, hi)
+        raised = None
+    except Exception as e:
+        raised = e
+    complete = all(u is not None for u in t["unspents"])
+    k = sum(1 for v, _ in t["outs"] if v == 0)
+    if complete and k > 0:
+        rem = sum(u[0] for u in t["unspents"]) - sum(v for v, _ in t["outs"]) - hi
+        if rem < k and not isinstance(raised, ValueError):
+            return {"kind": "distribute-did-not-refuse", "remaining": rem, "pool": k, "raised": repr(raised)}
+    if raised is None:
+        return None
+    after = c_tx(tx)
+    if after != before:
+        return {"kind": "refused-distribution-changed-the-transaction", "raised": type(raised).__name__,
+                "outs_before": [o[0] for o in before[2]], "outs_after": [o[0] for o in after[2]]}
+    if lo is None or not complete:
+        return None
+    # the caller lowers the fee and tries again on the same object: must equal a first attempt on a fresh one
+    ref = mk_tx(t)
+    exp = call13(lambda: (tx_utils.distribute_from_split_pool(ref, lo), c_tx(ref)))
+    got = call13(lambda: (tx_utils.distribute_from_split_pool(tx, lo), c_tx(tx)))
+    if exp != got:
+        return {"kind": "retry-after-refusal-differs-from-first-attempt", "outs_retry": [o.coin_value for o in tx.txs_out],
+                "outs_fresh": [o.coin_value for o in ref.txs_out]}
+    shares = [o.coin_value for o, (v, _) in zip(tx.txs_out, t["outs"]) if v == 0]
+    tot = sum(u[0] for u in t["unspents"])
+    if not got.startswith("!"):
+        if sum(o.coin_value for o in tx.txs_out) + lo != tot or tx.fee() != lo:
+            return {"kind": "retry-conservation", "outs": [o.coin_value for o in tx.txs_out], "fee": lo, "in": tot}
+        if min(shares) < 1 or max(shares) - min(shares) > 1 or shares != sorted(shares, reverse=True):
+            return {"kind": "retry-pool-shares-uneven", "shares": shares}
+    return None
+
+
+# ---- presentations and configurations --------------------------------------------------------------------------------
+class _MyInt(int):
+    pass
+
+
+def chk_presentation(inp):
+    """int subclasses (bool, user subclass) as amounts / fees / satoshi counts give what the plain int gives"""
+    s = inp["s"]
+    for wrap in (_MyInt,):
+        for f in (conv.satoshi_to_btc, conv.satoshi_to_mbtc):
+            if call13(lambda: c_dec(f(wrap(s)))) != call13(lambda: c_dec(f(s))):
+                return {"kind": "int-subclass-presentation", "function": f.__name__}
+        k = 1 + s % 7
+        if call13(lambda: [int(x) for x in tx_utils.split_with_remainder(wrap(s), wrap(k))]) != call13(lambda: list(tx_utils.split_with_remainder(s, k))):
+            return {"kind": "int-subclass-presentation", "function": "split_with_remainder"}
+    if conv.satoshi_to_btc(True) != conv.satoshi_to_btc(1) or conv.satoshi_to_btc(False) != conv.satoshi_to_btc(0):
+        return {"kind": "bool-presentation"}
+    # fee and amounts as int subclass in distribute
+    t = {"version": 1, "ins": [(b"\x01" * 32, 0, b"", FFFF)], "outs": [(0, b"\x51"), (0, b"\x52"), (3, b"\x53")], "lock_time": 0,
+         "unspents": [(s + 10, b"\x51")]}
+    a = mk_tx(t)
+    a.unspents[0].coin_value = _MyInt(s + 10)
+    b = mk_tx(t)
+    ra = call13(lambda: (tx_utils.distribute_from_split_pool(a, _MyInt(2)), [int(o.coin_value) for o in a.txs_out], int(a.fee())))
+    rb = call13(lambda: (tx_utils.distribute_from_split_pool(b, 2), [o.coin_value for o in b.txs_out], b.fee()))
+    if ra != rb:
+        return {"kind": "int-subclass-presentation", "function": "distribute_from_split_pool", "got": ra, "expected": rb}
+    return None
+
+
+OTHER_NET = None
+
+
+def other_network():
+    global OTHER_NET
+    if OTHER_NET is None:
+        try:
+            from pycoin.symbols.ltc import network as n2
+        except Exception:
+            from pycoin.symbols.xtn import network as n2
+        OTHER_NET = n2
+    return OTHER_NET
+
+
+def chk_two_networks(inp):
+    """the same value data built on BTC, on another network, and on BTC again: same amounts every time (no state
+    carried between networks or calls)"""
+    spec, fee = inp["spec"], inp["fee"]
+    n2 = other_network()
+
+    def build(net):
+        T = net.tx
+        sps = [T.Spendable(s[0], bytes.fromhex(s[1]), bytes.fromhex(s[2]), s[3]) for s in spec["spendables"]]
+        pays = []
+        for ai, v in spec["payables"]:
+            a = net.address.for_p2pkh(bytes([ai + 1]) * 20)
+            pays.append(a if v is None else (a, v))
+        return call13(lambda: (lambda tx: ([o.coin_value for o in tx.txs_out], tx.total_in(), tx.total_out(), tx.fee()))(
+            net.tx_utils.create_tx(sps, pays, fee=fee, lock_time=spec["lock_time"], version=spec["version"])))
+    r1, r2, r3, r4 = build(network), build(n2), build(network), build(n2)
+    if not (r1 == r2 == r3 == r4):
+        return {"kind": "network-or-call-order-dependence", "btc": r1, "other": r2, "btc_again": r3, "other_again": r4}
+    return None
+
+
+# ---- extended entry points ---------------------------------------------------------------------------------------------
+def model_cases(rng, tier):
+    for c in _base_model_cases(rng, tier):
+        yield c
+    for t, hi, lo in refused_specs(rng, tier):
+        yield Case("distribute_st %s %s %s" % (a_tx(t), a_fee(hi), canon(0)), (lambda t=t, hi=hi: impl_distribute_st(t, hi)),
+                   meta={"tx": jtx(t), "fee": hi, "lo": lo})
+    for hs in history_scenarios(rng, tier):
+        yield Case(history_line(hs), (lambda hs=hs: impl_history(hs)), meta={"history": hs})
+
+
+def prop_cases(rng, tier):
+    for pc in _base_prop_cases(rng, tier):
+        yield pc
+    for t, hi, lo in refused_specs(rng, tier):
+        inp = {"tx": jtx(t), "hi": hi, "lo": lo}
+        yield PropCase("refused_distribute", inp, (lambda inp=inp: run_check("refused_distribute", inp)))
+    for hs in history_scenarios(rng, tier):
+        yield PropCase("history", hs, (lambda hs=hs: chk_history(hs)))
+    for _ in range(60 if tier == "quick" else 2000):
+        inp = {"s": rng.choice([0, 1, 2, rng.randint(0, MAX), rng.getrandbits(64)])}
+        yield PropCase("presentation", inp, (lambda inp=inp: chk_presentation(inp)))
+    for _ in range(40 if tier == "quick" else 1500):
+        spec = gen_create_spec(rng)
+        for s in spec["spendables"]:
+            s[4] = "obj"
+        fees = [f for f in create_fees(rng, spec) if f != "standard" and f >= 0][:2]
+        for f in fees:
+            inp = {"spec": spec, "fee": f}
+            yield PropCase("two_networks", inp, (lambda inp=inp: chk_two_networks(inp)))
+
+
+def run_check(name, inp):
+    if name == "refused_distribute":
+        return chk_refused(inp["tx"], inp["hi"], inp["lo"])
+    if name == "history":
+        return chk_history(inp)
+    if name == "presentation":
+        return chk_presentation(inp)
+    if name == "two_networks":
+        return chk_two_networks(inp)
+    return _base_run_check(name, inp)
+
+
+def replay_input(check, inp):
+    return run_check(check, inp)
+
+
+def search(rng, tier, disagreements, known_ids):
+    cands = []
+    for d in disagreements[:80]:
+        fn = d["case"].split(" ", 1)[0]
+        meta = d.get("meta") or {}
+        if fn == "distribute_st" and "tx" in meta and meta["fee"] != "standard":
+            jt = meta["tx"]
+            t = untx(jt)
+            complete = all(u is not None for u in t["unspents"])
+            tot = sum(u[0] for u in t["unspents"] if u is not None)
+            fixed = sum(v for v, _ in t["outs"])
+            k = sum(1 for v, _ in t["outs"] if v == 0)
+            los = [meta.get("lo")] if meta.get("lo") is not None else []
+            if complete and tot - fixed >= k:
+                los += [0, max(0, tot - fixed - k), max(0, tot - fixed - 2 * k - 1)]
+            for df in (0, -1, 1):
+                for lo in los or [None]:
+                    inp = {"tx": jt, "hi": meta["fee"] + df, "lo": lo}
+                    cands.append(PropCase("refused_distribute", inp, (lambda inp=inp: run_check("refused_distribute", inp))))
+        elif fn == "history" and "history" in meta:
+            hs = meta["history"]
+            cands.append(PropCase("history", hs, (lambda hs=hs: chk_history(hs))))
+            # every prefix followed by every observer is examined by chk_history itself; also try the history doubled
+            hs2 = {"sc": hs["sc"], "ops": hs["ops"] + hs["ops"]}
+            cands.append(PropCase("history", hs2, (lambda hs2=hs2: chk_history(hs2))))
+    for pc in cands:
+        try:
+            r = pc.thunk()
+        except Exception as e:
+            r = {"kind": "raises", "detail": "%s: %s" % (type(e).__name__, e)}
+        if r is not None and classify(pc, r) not in known_ids:
+            return {"check": pc.name, "input": pc.inp, "failure": r}
+    return _base_search(rng, tier, disagreements, known_ids)
